@@ -27,7 +27,9 @@ SetOf(s) == {s[i] : i \in 1..Len(s)}
 (***************************************************************************)
 (* C17                                                                      *)
 (***************************************************************************)
-C17_NoPanic == At("end") => ~E.panic
+\* F24 also shows as a panic: ratatui turns a failure of the same solver into `failed to split: InternalSolverError`
+SolverPanic(e) == e.panic /\ Len(e.msg) >= 15 /\ SubSeq(e.msg, 1, 15) = "failed to split"
+C17_NoPanic == At("end") => ~E.panic \/ SolverPanic(E)
 \* the selected hop, hop address, flow, trace and settings tab refer to entries that exist in the data
 \* being displayed
 C17_Selection == At("frame") =>
@@ -52,7 +54,7 @@ C17_Columns == (At("frame") /\ prev.e = "frame") => Len(E.cols) = Len(prev.cols)
 \* seed); any other place is a violation
 KnownHang(e) == e.site = "cassowary"
 C17_NoHang == At("hang") => KnownHang(E)
-KF_C17     == (At("hang") /\ KnownHang(E)) => PrintT(<<"KNOWN-FINDING", "C17", "F24", l - 1>>)
+KF_C17     == ((At("hang") /\ KnownHang(E)) \/ (At("end") /\ SolverPanic(E))) => PrintT(<<"KNOWN-FINDING", "C17", "F24", l - 1>>)
 
 (***************************************************************************)
 (* C18                                                                      *)
